@@ -21,6 +21,22 @@ pub enum Stream {
     /// A TLS stream.
     #[cfg(feature = "tls")]
     Tls(rustls::StreamOwned<ServerConnection, TcpStream>),
+    /// A scripted stream supplied by the verification harness.
+    #[cfg(humphrey_verif)]
+    Mock(Box<dyn MockIo>),
+}
+
+/// The operations a scripted stream has to provide (verification harness only).
+#[cfg(humphrey_verif)]
+pub trait MockIo: Read + Write + Send {
+    /// The address to report as the peer.
+    fn peer_addr(&self) -> Result<SocketAddr, Error>;
+    /// Called when the connection is shut down.
+    fn shutdown(&self) -> std::io::Result<()>;
+    /// Called when the timeouts are set.
+    fn set_timeout(&self, timeout: Option<Duration>) -> std::io::Result<()>;
+    /// Called when the blocking mode changes.
+    fn set_nonblocking(&self, nonblocking: bool) -> std::io::Result<()>;
 }
 
 impl Read for Stream {
@@ -29,6 +45,8 @@ impl Read for Stream {
             Stream::Tcp(stream) => stream.read(buf),
             #[cfg(feature = "tls")]
             Stream::Tls(stream) => stream.read(buf),
+            #[cfg(humphrey_verif)]
+            Stream::Mock(stream) => stream.read(buf),
         }
     }
 }
@@ -39,6 +57,8 @@ impl Write for Stream {
             Stream::Tcp(stream) => stream.write(buf),
             #[cfg(feature = "tls")]
             Stream::Tls(stream) => stream.write(buf),
+            #[cfg(humphrey_verif)]
+            Stream::Mock(stream) => stream.write(buf),
         }
     }
 
@@ -47,6 +67,8 @@ impl Write for Stream {
             Stream::Tcp(stream) => stream.flush(),
             #[cfg(feature = "tls")]
             Stream::Tls(stream) => stream.flush(),
+            #[cfg(humphrey_verif)]
+            Stream::Mock(stream) => stream.flush(),
         }
     }
 }
@@ -58,6 +80,8 @@ impl Stream {
             Stream::Tcp(stream) => stream.peer_addr(),
             #[cfg(feature = "tls")]
             Stream::Tls(stream) => stream.sock.peer_addr(),
+            #[cfg(humphrey_verif)]
+            Stream::Mock(stream) => stream.peer_addr(),
         }
     }
 
@@ -67,6 +91,8 @@ impl Stream {
             Stream::Tcp(stream) => stream.shutdown(std::net::Shutdown::Both),
             #[cfg(feature = "tls")]
             Stream::Tls(stream) => stream.sock.shutdown(std::net::Shutdown::Both),
+            #[cfg(humphrey_verif)]
+            Stream::Mock(stream) => stream.shutdown(),
         }
     }
 
@@ -82,6 +108,8 @@ impl Stream {
                 stream.sock.set_read_timeout(timeout)?;
                 stream.sock.set_write_timeout(timeout)
             }
+            #[cfg(humphrey_verif)]
+            Stream::Mock(stream) => stream.set_timeout(timeout),
         }
     }
 
@@ -91,6 +119,8 @@ impl Stream {
             Stream::Tcp(stream) => stream.set_nonblocking(true),
             #[cfg(feature = "tls")]
             Stream::Tls(stream) => stream.sock.set_nonblocking(true),
+            #[cfg(humphrey_verif)]
+            Stream::Mock(stream) => stream.set_nonblocking(true),
         }
     }
 
@@ -100,6 +130,8 @@ impl Stream {
             Stream::Tcp(stream) => stream.set_nonblocking(false),
             #[cfg(feature = "tls")]
             Stream::Tls(stream) => stream.sock.set_nonblocking(false),
+            #[cfg(humphrey_verif)]
+            Stream::Mock(stream) => stream.set_nonblocking(false),
         }
     }
 }
